@@ -169,6 +169,32 @@ def check_seq(case):
     return good(nt=repeated or expiry, labels=labels)
 
 
+# bounded-exhaustive sequential histories: one case = every history that
+# starts with a given prefix over a small operation alphabet
+ENUM_OPS = [["set", 0, 0], ["set", 1, 1], ["set", 2, 2], ["set", 0, 3],
+            ["get", 0], ["get", 1], ["adv", 6], ["invr", 0]]
+
+
+def check_seq_enum(case):
+    import itertools
+    labels = ["seq-enum", "maxEntries=%d" % case["maxEntries"],
+              "depth=%d" % case["depth"]]
+    prefix = [ENUM_OPS[i] for i in case["prefix"]]
+    n = 0
+    for tail in itertools.product(range(len(ENUM_OPS)),
+                                  repeat=case["depth"] - len(prefix)):
+        ops = prefix + [ENUM_OPS[i] for i in tail]
+        if ops[-1][0] != "get" and ops[-1][0] != "set":
+            continue        # (a last step that observes nothing)
+        r = check_seq({"k": "seq", "maxEntries": case["maxEntries"],
+                       "maxAge": 10, "ops": ops})
+        n += 1
+        if not r.ok:
+            return r
+    labels.append("histories=%d" % n)
+    return good(labels=labels)
+
+
 # ---------------------------------------------------------------------------
 # scheduled concurrency
 # ---------------------------------------------------------------------------
@@ -579,6 +605,7 @@ def check_stress(case):
 
 def check(case):
     return {"seq": check_seq, "cache": check_conc_cache,
+            "seqenum": check_seq_enum,
             "db": check_conc_db, "rsa": check_conc_rsa,
             "stress": check_stress}[case["k"]](case)
 
@@ -671,6 +698,13 @@ def explicit(tier, seed):
            "iters": 300 if tier == "quick" else 3000}
     yield {"k": "stress", "target": "rsa", "threads": 6,
            "iters": 40 if tier == "quick" else 400}
+    # every history of 6 (thorough: 7) steps over ENUM_OPS
+    depth = 6 if tier == "quick" else 7
+    for me in ((2, 3, 4) if tier == "quick" else (1, 2, 3, 4, 5)):
+        for a in range(len(ENUM_OPS)):
+            for b in range(len(ENUM_OPS)):
+                yield {"k": "seqenum", "maxEntries": me, "depth": depth,
+                       "prefix": [a, b]}
     # regression-style sequential histories around duplicate ids
     # the degenerate one-slot ring
     yield {"k": "seq", "maxEntries": 1, "maxAge": 10,
